@@ -457,8 +457,12 @@ def cases(draw, max_events=40):
                         i, j = draw(st.sampled_from(holes))
                         base[0], base[1] = L.ex[i] + L.fdh / 2, L.ey[j] + L.fdh / 2
                     else:
-                        side = draw(st.sampled_from(["east", "west", "north", "south", "north", "south", "corner"]))
+                        side = draw(st.sampled_from(["east", "west", "north", "south", "north", "south", "corner", "on_east_edge", "on_north_edge"]))
                         far_ = draw(st.sampled_from([0.5, 1.5, 7]))
+                        if side == "on_east_edge":
+                            base[0] = L._coord(L.lon0, L.i0 + L.nx)       # exactly the outer edge (the decimal coordinate): outside
+                        if side == "on_north_edge":
+                            base[1] = L._coord(L.lat0, L.j0 + L.ny)
                         if side in ("east", "corner"):
                             base[0] = L.ex[-1] + L.fdh + far_ * L.fdh
                         if side == "west":
